@@ -6,6 +6,7 @@ import json, os, sys
 sys.path.insert(0, os.path.dirname(os.path.dirname(os.path.abspath(__file__))))
 from gdverif import facts, tracespec as TS, sites as S, units as U, sym as SY
 
+OTHER_CONFIGS = ["libdefault", "allfeatures"]
 IO_PROPS = ["C02", "C03", "C04", "C05", "C06", "C07", "C16"]
 
 
@@ -20,6 +21,18 @@ def main(which):
         for p in U.select(c, prop):
             f = c.fn(p)
             out["functions"][S.fn_display(f)] = {"rows": TS.rows_of(c, f, {})}
+        if cname == "gamedig-lib":
+            # units whose term differs in another feature configuration (cfg-gated arms, capture wrapper) get a table for it
+            for cfg in OTHER_CONFIGS:
+                c2 = facts.load(cfg, cname)
+                for p in U.select(c2, prop):
+                    f2 = c2.fn(p)
+                    nm = S.fn_display(f2)
+                    rows2 = TS.rows_of(c2, f2, {})
+                    if nm not in out["functions"]:
+                        out["functions"][nm] = {"rows": rows2, "only_in": cfg}
+                    elif rows2 != out["functions"][nm]["rows"]:
+                        out["functions"][nm]["rows@" + cfg] = rows2
         with open(TS.spec_path(prop), "w") as fh:
             json.dump(out, fh, indent=1)
         print(prop, len(out["functions"]), "functions", sum(len(e["rows"]) for e in out["functions"].values()), "rows")
@@ -32,6 +45,19 @@ def main(which):
                 if g.reaches(p, SY.IO_PRED):
                     f = lib.fn(p)
                     out["functions"][S.fn_display(f)] = {"project": "requests", "rows": TS.rows_of(lib, f, {"project": "requests"})}
+        for cfg in OTHER_CONFIGS:
+            c2 = facts.load(cfg, "gamedig-lib")
+            u2, g2 = TS.all_units(c2)
+            for prop in IO_PROPS:
+                for p in U.select(c2, prop):
+                    if g2.reaches(p, SY.IO_PRED):
+                        f2 = c2.fn(p)
+                        nm = S.fn_display(f2)
+                        rows2 = TS.rows_of(c2, f2, {"project": "requests"})
+                        if nm not in out["functions"]:
+                            out["functions"][nm] = {"project": "requests", "rows": rows2, "only_in": cfg}
+                        elif rows2 != out["functions"][nm]["rows"]:
+                            out["functions"][nm]["rows@" + cfg] = rows2
         with open(TS.spec_path("C09"), "w") as fh:
             json.dump(out, fh, indent=1)
         print("C09", len(out["functions"]), "functions", sum(len(e["rows"]) for e in out["functions"].values()), "rows")
